@@ -266,9 +266,15 @@ def parse_float_codecs(fns, gaps):
     """which spelling gds_format_float / gds_format_double give the non-finite values, and that gds_parse_float /
     gds_parse_double read through float() (which accepts INF, -INF, NaN in any case)"""
     out = {}
+
+    def _aug(txt):
+        # `x += e` and `x = x + e` are the same statement for the str locals of these codecs (immutable values):
+        # compare both sides in the `x = x + e` spelling
+        return None if txt is None else re.sub(r"(?m)^(\s*)(\w+) \+= (.+)$", r"\1\2 = \2 + \3", txt)
     for name, old, new in (("gds_format_float", FMT_FLOAT_OLD, FMT_FLOAT_NEW), ("gds_format_double", FMT_DOUBLE_OLD, FMT_DOUBLE_NEW)):
         f = fns.get(name)
-        body = "\n".join(_u(x) for x in f.body) if f is not None else None
+        body = _aug("\n".join(_u(x) for x in f.body) if f is not None else None)
+        old, new = _aug(old), _aug(new)
         if body == old:
             out[name] = False
         elif body == new:
